@@ -175,10 +175,13 @@ type C19Entry struct {
 type C19Event struct {
 	Wrapped bool       `json:"wrapped"` // inside {"hledger": ...}
 	Entries []C19Entry `json:"entries"`
+	// Junk (not wrapped only): an ill-typed entry "hledger" beside the settings: "null" | "string" | "number" | "bool" | "array"
+	Junk string `json:"junk,omitempty"`
 }
 
 type C19EffectCase struct {
-	Events []C19Event `json:"events"` // event 0 = initializationOptions, others = didChangeConfiguration
+	Events []C19Event `json:"events"`         // event 0 = initializationOptions, others = didChangeConfiguration
+	Root   bool       `json:"root,omitempty"` // the probe directory is the workspace folder (root journal main.journal)
 }
 
 type c19Settings struct {
@@ -300,6 +303,18 @@ func (e C19Event) payload() any {
 	if e.Wrapped {
 		return map[string]any{"hledger": root}
 	}
+	switch e.Junk {
+	case "null":
+		root["hledger"] = nil
+	case "string":
+		root["hledger"] = "x"
+	case "number":
+		root["hledger"] = float64(0)
+	case "bool":
+		root["hledger"] = true
+	case "array":
+		root["hledger"] = []any{}
+	}
 	return root
 }
 
@@ -307,6 +322,9 @@ func (e C19Event) payload() any {
 func c19IntOf(e C19Entry) int {
 	switch v := e.Value.(type) {
 	case float64:
+		if v >= 1e15 {
+			return 1 << 40 // a number beyond every practical bound: "as much as there is"
+		}
 		return int(v)
 	case int:
 		return v
@@ -337,6 +355,8 @@ type c19Probe struct {
 	fmtURI                  string
 	incURI                  string
 	incOpenURI, sizeOpenURI string
+	mainURI                 string
+	root                    bool
 	sizeURI                 string
 	version                 int
 	nAccounts               int
@@ -355,7 +375,7 @@ const c19FmtText = "2024-01-01 shop\n  short:a  1 EUR\n  much:longer:account:nam
 const c19DiagText = "account known:acct\ncommodity 1000.00 EUR\n\n2024-01-01 shop\n    known:acct  5 EUR\n    unknown:acct  -4 XYZ\n"
 const c19InlineText = "2024-01-01 shop\n    expenses:food  5 EUR\n    assets:cash\n\n2024-02-01 shop\n\n"
 
-func newC19Probe(init any) (*c19Probe, error) {
+func newC19Probe(init any, root bool) (*c19Probe, error) {
 	wsSeq++
 	dir := filepath.Join(scratch(), fmt.Sprintf("c19-%d", wsSeq))
 	_ = os.MkdirAll(dir, 0o755)
@@ -377,7 +397,13 @@ func newC19Probe(init any) (*c19Probe, error) {
 	p.sizeURI = w("size0.journal", "include big.journal\n")
 	p.uri = "file://" + filepath.Join(dir, "probe.journal")
 	p.fmtURI = "file://" + filepath.Join(dir, "fmt.journal")
-	h, err := lspx.New(lspx.Options{InitOptions: init, SupportsConfiguration: true})
+	p.mainURI = w("main.journal", "include chain0.journal\ninclude size0.journal\naccount \n")
+	popts := lspx.Options{InitOptions: init, SupportsConfiguration: true}
+	if root {
+		popts.RootDir = dir
+	}
+	p.root = root
+	h, err := lspx.New(popts)
 	if err != nil {
 		return nil, err
 	}
@@ -391,6 +417,12 @@ func newC19Probe(init any) (*c19Probe, error) {
 	}
 	if _, err := h.OpenAndWait(p.sizeOpenURI, "include big.journal\naccount \n"); err != nil {
 		return nil, err
+	}
+	if root {
+		// the root journal of the workspace stays open too: its answers come from the workspace's tree
+		if _, err := h.OpenAndWait(p.mainURI, "include chain0.journal\ninclude size0.journal\naccount \n"); err != nil {
+			return nil, err
+		}
 	}
 	return p, nil
 }
@@ -444,8 +476,18 @@ func (p *c19Probe) measure(want c19Settings, stage string) []ev.Discrepancy {
 			}{
 				{p.incOpenURI, "deep:only", "maxIncludeDepth", want.MaxDepth >= 4},
 				{p.sizeOpenURI, "big:only", "maxFileSizeBytes", want.MaxSize >= int64(p.bigSize) && want.MaxDepth >= 2},
+				// through the workspace's tree (one level deeper: main -> chain0 -> ...)
+				{p.mainURI, "deep:only", "maxIncludeDepth.workspace", want.MaxDepth >= 5},
+				{p.mainURI, "big:only", "maxFileSizeBytes.workspace", want.MaxSize >= int64(p.bigSize) && want.MaxDepth >= 3},
 			} {
-				res, err := p.h.S.Completion(ctx, &protocol.CompletionParams{TextDocumentPositionParams: tdpp(q.uri, refclient.Pos{Line: 1, Char: 8})})
+				if q.uri == p.mainURI && !p.root {
+					continue
+				}
+				line := 1
+				if q.uri == p.mainURI {
+					line = 2
+				}
+				res, err := p.h.S.Completion(ctx, &protocol.CompletionParams{TextDocumentPositionParams: tdpp(q.uri, refclient.Pos{Line: line, Char: 8})})
 				if err != nil || res == nil {
 					add("c19.probe", "completion on an open document: %v", err)
 					return
@@ -499,6 +541,10 @@ func (p *c19Probe) measure(want c19Settings, stage string) []ev.Discrepancy {
 			add("c19.probe", "formatting: %v", err)
 			return
 		}
+		fmtOff := !want.FeatFmt
+		if fmtOff && len(edits) > 0 {
+			add("c19.effect.features.formatting", "features.formatting is off, formatting still returns %d edits", len(edits))
+		}
 		cur, _ := p.h.S.GetDocument(protocol.DocumentURI(p.fmtURI))
 		buf := refclient.New(cur)
 		var res []refclient.Edit
@@ -513,14 +559,19 @@ func (p *c19Probe) measure(want c19Settings, stage string) []ev.Discrepancy {
 		ls := strings.Split(out.String(), "\n")
 		l1, l2 := ls[1], ls[2]
 		ind := len(l1) - len(strings.TrimLeft(l1, " "))
-		if ind != want.Indent {
-			add("c19.effect.indentSize", "formatted posting %q is indented by %d, expected indentSize=%d", l1, ind, want.Indent)
+		// the server bounds these two (64 and 1024) so that a huge value cannot produce gigabytes of blanks
+		wantIndent, wantMinCol := min(want.Indent, 64), min(want.MinCol, 1024)
+		if fmtOff {
+			// nothing to measure: the document is as it was
+		} else if ind != wantIndent {
+			add("c19.effect.indentSize", "formatted posting %q is indented by %d, expected indentSize=%d", l1, ind, wantIndent)
 		}
 		col1, col2 := strings.Index(l1, "1 EUR"), strings.Index(l2, "-1 EUR")
-		if want.Align {
-			exp := want.Indent + len("much:longer:account:name") + 2
-			if want.MinCol > exp {
-				exp = want.MinCol
+		if fmtOff {
+		} else if want.Align {
+			exp := wantIndent + len("much:longer:account:name") + 2
+			if wantMinCol > exp {
+				exp = wantMinCol
 			}
 			if col1 != col2 || col1 != exp {
 				add("c19.effect.alignment", "amounts start in columns %d and %d, expected both in column %d (alignAmounts on, indent %d, minAlignmentColumn %d): %q / %q", col1, col2, exp, want.Indent, want.MinCol, l1, l2)
@@ -533,6 +584,35 @@ func (p *c19Probe) measure(want c19Settings, stage string) []ev.Discrepancy {
 		if err != nil {
 			add("c19.probe", "%v", err)
 			return
+		}
+		// feature switches: a feature that is off answers nothing, one that is on answers
+		{
+			hv, _ := p.h.S.Hover(ctx, &protocol.HoverParams{TextDocumentPositionParams: tdpp(p.uri, refclient.Pos{Line: 4, Char: 8})})
+			st, _ := p.h.S.SemanticTokensRange(ctx, &protocol.SemanticTokensRangeParams{TextDocument: tdi(p.uri), Range: protocol.Range{End: protocol.Position{Line: 1 << 20}}})
+			fr, _ := p.h.S.FoldingRanges(ctx, &protocol.FoldingRangeParams{TextDocumentPositionParams: tdpp(p.uri, refclient.Pos{})})
+			ln, _ := p.h.S.DocumentLink(ctx, &protocol.DocumentLinkParams{TextDocument: tdi(p.incOpenURI)})
+			ws, _ := p.h.S.WorkspaceSymbol(ctx, &protocol.WorkspaceSymbolParams{Query: ""})
+			cp, _ := p.h.S.Completion(ctx, &protocol.CompletionParams{TextDocumentPositionParams: tdpp(p.uri, refclient.Pos{Line: 5, Char: 8})})
+			for _, f := range []struct {
+				name     string
+				answered bool
+				on       bool
+			}{
+				{"hover", hv != nil, want.FeatHover},
+				{"semanticTokens", st != nil && len(st.Data) > 0, want.FeatSemantic},
+				{"foldingRanges", len(fr) > 0, want.FeatFolding},
+				{"documentLinks", len(ln) > 0, want.FeatLinks},
+				{"workspaceSymbol", len(ws) > 0, want.FeatWSSym},
+				{"completion", cp != nil && len(cp.Items) > 0, want.FeatCompletion},
+			} {
+				if f.name == "completion" && disabled("c19.features.completion") {
+					recC19.Excluded("c19.features.completion")
+					continue
+				}
+				if f.answered != f.on {
+					add("c19.effect.features."+f.name, "features.%s=%v, but the request is answered=%v", f.name, f.on, f.answered)
+				}
+			}
 		}
 		have := map[string]bool{}
 		for _, d := range diags {
@@ -550,7 +630,12 @@ func (p *c19Probe) measure(want c19Settings, stage string) []ev.Discrepancy {
 			add("c19.probe", "%v", err)
 			return
 		}
-		if got, exp := hasLabel(items3, "deep:only"), want.MaxDepth >= 4; got != exp && want.MaxResults >= 5 {
+		// with a workspace folder chain0.journal and size0.journal are files of main.journal's tree, one level down
+		lvl := 0
+		if p.root {
+			lvl = 1
+		}
+		if got, exp := hasLabel(items3, "deep:only"), want.MaxDepth >= 4+lvl; got != exp && want.MaxResults >= 5 {
 			add("c19.effect.maxIncludeDepth", "account of the file at nesting level 3 offered=%v, expected %v with maxIncludeDepth=%d", got, exp, want.MaxDepth)
 		}
 		// include size
@@ -560,7 +645,7 @@ func (p *c19Probe) measure(want c19Settings, stage string) []ev.Discrepancy {
 			return
 		}
 		// the include sits at nesting level 1: it also needs maxIncludeDepth >= 2
-		if got, exp := hasLabel(items4, "big:only"), want.MaxSize >= int64(p.bigSize) && want.MaxDepth >= 2; got != exp && want.MaxResults >= 5 {
+		if got, exp := hasLabel(items4, "big:only"), want.MaxSize >= int64(p.bigSize) && want.MaxDepth >= 2+lvl; got != exp && want.MaxResults >= 5 {
 			add("c19.effect.maxFileSizeBytes", "account of the %d-byte include offered=%v, expected %v with maxFileSizeBytes=%d", p.bigSize, got, exp, want.MaxSize)
 		}
 		// inline completion
@@ -607,7 +692,7 @@ func c19EffectCheck(c *C19EffectCase) ([]ev.Discrepancy, bool) {
 		}
 	}
 	apply(c.Events[0])
-	p, err := newC19Probe(c.Events[0].payload())
+	p, err := newC19Probe(c.Events[0].payload(), c.Root)
 	if err != nil {
 		return []ev.Discrepancy{ev.D("c19.total.initialize", "%v", err)}, false
 	}
@@ -672,7 +757,10 @@ func genC19Entry(t *rapid.T, setting string, isInt bool) C19Entry {
 			case "limits.maxFileSizeBytes":
 				n = rapid.SampledFrom([]int{100, 319, 320, 321, 5000, 1000000}).Draw(t, "n")
 			}
-			switch rapid.IntRange(0, 3).Draw(t, "enc") {
+			switch rapid.IntRange(0, 8).Draw(t, "enc") {
+			case 8:
+				// a well-typed number far beyond any practical bound
+				e.Value = rapid.SampledFrom([]float64{1e18, 1e19, 9.3e18, 1e300}).Draw(t, "huge")
 			case 0:
 				e.Value = fmt.Sprint(n)
 			case 1:
@@ -705,6 +793,9 @@ func genC19Entry(t *rapid.T, setting string, isInt bool) C19Entry {
 
 func genC19Event(t *rapid.T) C19Event {
 	ev := C19Event{Wrapped: rapid.Bool().Draw(t, "wrapped")}
+	if !ev.Wrapped && rapid.IntRange(0, 3).Draw(t, "junkwrapper") == 0 {
+		ev.Junk = rapid.SampledFrom([]string{"null", "string", "number", "bool", "array"}).Draw(t, "junk")
+	}
 	var ints []string
 	for k := range c19IntSettings {
 		ints = append(ints, k)
@@ -743,13 +834,13 @@ func TestC19Total(t *testing.T) {
 func TestC19Effect(t *testing.T) {
 	defer recC19.Flush()
 	rapid.Check(t, func(t *rapid.T) {
-		c := &C19EffectCase{}
+		c := &C19EffectCase{Root: rapid.Bool().Draw(t, "root")}
 		n := rapid.IntRange(1, 4).Draw(t, "nevents")
 		for i := 0; i < n; i++ {
 			c.Events = append(c.Events, genC19Event(t))
 		}
 		ds, nt := c19EffectCheck(c)
-		recC19.Case(nt, mustJSON(c), "kind:structured", fmt.Sprintf("events:%d", n))
+		recC19.Case(nt, mustJSON(c), "kind:structured", fmt.Sprintf("events:%d", n), fmt.Sprintf("workspace-root:%v", c.Root))
 		if nt && recC19.WantSample() {
 			var ps []any
 			for _, e := range c.Events {
